@@ -233,6 +233,10 @@ func (l *linkedBuffer) recycle() {
 			putBackBufferSlice(slice)
 		}
 	}
+	// slices already read but still pinned by ReadBytes/Peek results are not in sliceList any more
+	if l.pinnedList != nil {
+		l.cleanPinnedList()
+	}
 	l.clean()
 	l.recycleMux.Unlock()
 }
